@@ -319,6 +319,16 @@ func genMalformed(r *vh.Rand) (*entityDecl, string) {
 		}
 		return d, "optional-required"
 	}
+	if r.Chance(25) {
+		// visitServiceMethodNode: a ":name" path part must be a request field
+		m := eMethod{Name: "MissingParam", Verb: 2, Path: vh.Pick(r, []string{":nope", "x/:nope/y", ":a/:nope"}), Request: []uField{genScalarField(r, "a")}}
+		if len(d.Commands) == 0 {
+			d.Commands = append(d.Commands, eCommand{})
+		}
+		c := &d.Commands[r.Intn(len(d.Commands))]
+		c.Methods = append(c.Methods, m)
+		return d, "missing-path-field"
+	}
 	if r.Bool() {
 		if d.Query == nil {
 			d.Query = &eQuery{}
@@ -366,7 +376,7 @@ const c17Shard = 40
 func runC17(cfg *vh.Config) error {
 	log.SetOutput(io.Discard) // the compiler logs every walker error
 	res := vh.NewResult("C17", cfg.Seed)
-	res.Rule = "entity declarations: name casings (fixed list incl. trailing capitals/acronyms/digits/underscores + generated identifiers), 1-4 keys (key-typed id62/uuid/plain with primary/tenant, or scalar) x shard flag x required, 0-4 data fields over 9 scalar types + keys, 1-4 statuses (+ the UNSPECIFIED-first and prefixed-name edge cases), foreign keys, optional fields, methods without response, 0-3 events with 0-3 fields, 0-2 command services (default/named, base path, 0-2 methods with path parameters), 0-2 summaries (default/named), optional query settings; malformed: unknown default status, duplicate summary, optional+required field; plus the strcase stream; non-trivial = distinct declaration text"
+	res.Rule = "entity declarations: name casings (fixed list incl. trailing capitals/acronyms/digits/underscores + generated identifiers), 1-4 keys (key-typed id62/uuid/plain with primary/tenant, or scalar) x shard flag x required, 0-4 data fields over 9 scalar types + keys, 1-4 statuses (+ the UNSPECIFIED-first and prefixed-name edge cases), foreign keys, optional fields, methods without response, 0-3 events with 0-3 fields, 0-2 command services (default/named, base path, 0-2 methods with path parameters), 0-2 summaries (default/named), optional query settings; malformed: unknown default status, duplicate summary, optional+required field, path parameter that is not a request field; plus the strcase stream; non-trivial = distinct declaration text"
 	cf := &vh.CasesFile{
 		Header: "From Coq Require Import String List NArith.\nFrom J5V.lib Require Import Outcome.\nFrom J5V.model Require Import Entity EntityCorr.",
 		Type:   "c17case",
@@ -390,7 +400,7 @@ func runC17(cfg *vh.Config) error {
 		decls = append(decls, genEntity(r))
 		kinds = append(kinds, "generated")
 	}
-	nBad := cfg.Scale(16, 200)
+	nBad := cfg.Scale(24, 300)
 	for i := 0; i < nBad; i++ {
 		d, k := genMalformed(r)
 		decls = append(decls, d)
@@ -403,7 +413,7 @@ func runC17(cfg *vh.Config) error {
 		res.Count("entity_" + kinds[i])
 		out := compileEntity(d)
 		in := map[string]any{"j5s": text}
-		malformed := kinds[i] == "unknown-default-status" || kinds[i] == "duplicate-summary" || kinds[i] == "optional-required"
+		malformed := kinds[i] == "unknown-default-status" || kinds[i] == "duplicate-summary" || kinds[i] == "optional-required" || kinds[i] == "missing-path-field"
 		if out.panicked != nil {
 			res.Fail(vh.Failure{Case: caseNo, Stream: "entity", Sig: "C17 compiler panic on entity declaration", Clause: "entity expansion is total", Input: in, Got: fmt.Sprint(out.panicked)})
 			caseNo++
@@ -512,6 +522,8 @@ func errClass(err error) string {
 	switch {
 	case strings.Contains(s, "cannot be both required and optional"):
 		return "required and optional"
+	case strings.Contains(s, "missing field") && strings.Contains(s, "in request"):
+		return "missing field in request"
 	case strings.Contains(s, "not found in entity"):
 		return "status not found in entity"
 	case strings.Contains(s, "duplicate summary"):
